@@ -32,6 +32,18 @@ impl<T: ?Sized> No for P<T> {}
 struct PS<T: ?Sized>(PhantomData<T>);
 struct PY<T: ?Sized>(PhantomData<T>);
 struct PU<T: ?Sized>(PhantomData<T>);
+struct PT<T: ?Sized>(PhantomData<T>);
+trait NoT {
+    fn timer(&self) -> bool {
+        false
+    }
+}
+impl<T: ?Sized> NoT for PT<T> {}
+impl<T: ?Sized + Timer> PT<T> {
+    fn timer(&self) -> bool {
+        true
+    }
+}
 trait NoS {
     fn send(&self) -> bool {
         false
@@ -171,7 +183,15 @@ macro_rules! per_lock {
         fact!($out, format!("SharedSemaphoreReleaser|{}", $ln), GenericSharedSemaphoreReleaser<$l>);
         fact!($out, format!("ManualResetEvent|{}", $ln), GenericManualResetEvent<$l>);
         fact!($out, format!("WaitForEventFuture|{}", $ln), GenericWaitForEventFuture<'static, $l>);
-        fact!($out, format!("TimerService|{}", $ln), GenericTimerService<$l>);
+        // the Send-future API (`Timer` trait) must only exist for thread-safe services
+        $out.push(format!(
+            "\"TimerService|{}\": {{\"send\": {}, \"sync\": {}, \"unpin\": {}, \"timer\": {}}}",
+            $ln,
+            PS::<GenericTimerService<$l>>(PhantomData).send(),
+            PY::<GenericTimerService<$l>>(PhantomData).sync(),
+            PU::<GenericTimerService<$l>>(PhantomData).unpin(),
+            PT::<GenericTimerService<$l>>(PhantomData).timer()
+        ));
         per_payload!($out, $l, $ln, TSendSync, "sendsync");
         per_payload!($out, $l, $ln, TSendOnly, "sendonly");
         per_payload!($out, $l, $ln, SyncNotSend, "synconly");
